@@ -259,6 +259,9 @@ partial def loop (h : IO.FS.Stream) (d : DS) : IO Unit := do
   | ["O", "eof", c] => fin (applyActs d [.flip c.toNat!, .teardown c.toNat!])
   -- hard write error: `c.closed = true` under the mutex, then `closeWithErrorWithoutLock` (same two steps)
   | ["O", "werr", c] => fin (applyActs d [.flip c.toNat!, .teardown c.toNat!])
+  -- history: n conns registered, closed together behind one slow close handler and fully notified: the Async queue
+  -- (a FIFO that empties: JobQ) is back where it was, nothing of the burst is left in the state
+  | ["O", "burst", _] => fin d
   | ["O", "holdclose"] => fin { d with heldClose := true }
   | ["O", "relclose"] => fin { d with heldClose := false }
   | "O" :: "stop" :: _ => fin (applyActs d [.stopListeners])
